@@ -10,14 +10,14 @@ from .model import AnalysisError
 from .report import Collector, conclude, FINDING
 
 
-def run_property(pid, tier, root=None, replay=None, list_findings=False):
+def run_property(pid, tier, root=None, replay=None, list_findings=False, ctx=None, no_evidence=False):
     from .context import Ctx
     from . import props
     t0 = time.time()
     if pid not in props.PROPS:
         raise AnalysisError("unknown property %s" % pid)
     spec = props.PROPS[pid]
-    ctx = Ctx(root, tier)
+    ctx = ctx or Ctx(root, tier)
     insts, notes = [], []
     for rid in spec["rules"]:
         fn = props.RULESETS[rid]
@@ -42,7 +42,7 @@ def run_property(pid, tier, root=None, replay=None, list_findings=False):
         return 0
     stats = dict(ctx.stats)
     stats["rules_run"] = list(spec["rules"])
-    return conclude(pid, spec, insts, notes, tier, t0, stats)
+    return conclude(pid, spec, insts, notes, tier, t0, stats, no_evidence=no_evidence)
 
 
 def main(argv=None):
@@ -52,6 +52,7 @@ def main(argv=None):
     ap.add_argument("--replay")
     ap.add_argument("--root")
     ap.add_argument("--list-findings", action="store_true")
+    ap.add_argument("--no-evidence", action="store_true")
     a = ap.parse_args(argv)
     try:
         if a.prop == "selftest":
@@ -59,11 +60,13 @@ def main(argv=None):
             return selftest.main()
         if a.prop == "all":
             from . import props
+            from .context import Ctx
             rc = 0
+            ctx = Ctx(a.root, a.tier)
             for pid in sorted(props.PROPS):
-                rc = max(rc, run_property(pid, a.tier, a.root, None, a.list_findings))
+                rc = max(rc, run_property(pid, a.tier, a.root, None, a.list_findings, ctx=ctx, no_evidence=a.no_evidence))
             return rc
-        return run_property(a.prop, a.tier, a.root, a.replay, a.list_findings)
+        return run_property(a.prop, a.tier, a.root, a.replay, a.list_findings, no_evidence=a.no_evidence)
     except AnalysisError as e:
         print("ANALYSIS-ERROR %s: %s" % (a.prop, e))
         return 2
